@@ -132,7 +132,7 @@ theorem factorize_targets_sound (hρ : LawfulEnv ρ) (hreal : RealArgs ρ) (S : 
     (res : FResult) (h : factorize S rank = .ok res) (hwf : wfCheck S rank res = true)
     (e : Nat × List Nat × Dict) (he : e ∈ res.targetDicts) :
     val ρ S.nodes e.1 = factSum ρ res.F (val ρ res.F) e.2.2 := by
-  obtain ⟨st, hrun, hF, hfacs, hav, htd⟩ := factorize_ok S rank res h
+  obtain ⟨st, hrun, hF, hfacs, hav, htd, hrange, hnrej⟩ := factorize_ok S rank res h
   obtain ⟨hinv, hxF⟩ := factorize_inv ρ hρ hreal S rank res st hrun hF hfacs hwf
   obtain ⟨hpos, _, hwft⟩ := wfCheck_spec S rank res hwf
   obtain ⟨hcS, har⟩ := accepted_closed S.nodes _ _ st hrun
@@ -141,8 +141,10 @@ theorem factorize_targets_sound (hρ : LawfulEnv ρ) (hreal : RealArgs ρ) (S : 
   simp only [List.mem_map] at he
   obtain ⟨⟨t, comps⟩, hmem, rfl⟩ := he
   have hwt := hwft (t, comps) hmem
-  simp only [wfTarget, Bool.and_eq_true, decide_eq_true_eq] at hwt
-  obtain ⟨htlt, hwt⟩ := hwt
+  simp only [wfTarget] at hwt
+  have htlt : t < S.nodes.size := hrange (t, comps) hmem
+  have hnr := hnrej (t, comps) hmem
+  simp only [targetRejected] at hnr
   have hnode := hinv.node t htlt
   simp only
   rw [hF]
@@ -153,7 +155,7 @@ theorem factorize_targets_sound (hρ : LawfulEnv ρ) (hreal : RealArgs ρ) (S : 
   rw [hfacs] at hwt
   rw [hfeq] at hwt ⊢
   by_cases hemp : facAt st t = []
-  · simp only [hemp, List.isEmpty_nil, if_true] at hwt ⊢
+  · simp only [hemp, List.isEmpty_nil, if_true]
     by_cases hr : rank = 0
     · simp only [hr, if_true]
       rw [hseq]
@@ -161,14 +163,12 @@ theorem factorize_targets_sound (hρ : LawfulEnv ρ) (hreal : RealArgs ρ) (S : 
       rw [(hnode.free hemp).2]; grind
     · simp only [hr, if_false]
       have hk : kindAt S.nodes t = .zero := by
-        simp only [Bool.or_eq_true, beq_iff_eq] at hwt
-        rcases hwt with h0 | h0
-        · exact absurd h0 hr
-        · exact h0
+        rw [hfeq, hemp] at hnr
+        simpa [hr] using hnr
       rw [val_zero_of_kind ρ S.nodes hcS t htlt hk]
       rfl
   · have hie : (facAt st t).isEmpty = false := by cases hf : facAt st t <;> simp_all
-    simp only [hie, Bool.false_eq_true, if_false, decide_eq_true_eq] at hwt ⊢
+    simp only [hie, Bool.false_eq_true, if_false, Bool.false_or, decide_eq_true_eq] at hwt ⊢
     rw [hav] at hwt
     rw [foldl_set_map (fun k => sortNat (k.map fun si => List.idxOf si (argIndices S.nodes)))
       (facAt st t) [] (by simpa [Dict.keys] using hwt)]
